@@ -146,6 +146,7 @@ async fn log_thread(
                 .write_all(line.as_bytes())
                 .await
                 .context("log write error")?;
+            stream.flush().await.context("log flush error")?;
         } else {
             info!("log rotate");
             stream.flush().await.context("flush")?;
